@@ -182,7 +182,9 @@ static void gen_tuple(comps_t *c, unsigned shape)
         if ((shape >> F_USER) & 1) {
             c->f[F_USER] = gen_from(ALNUM, 1, small_len());
             if ((shape >> F_PASSWD) & 1) {
-                c->f[F_PASSWD] = gen_from("abcdefghijklmnopqrstuvwxyzABCDEFGHIJKLMNOPQRSTUVWXYZ0123456789::", 1, small_len());
+                /* "user:@host" is in the shape too: a password that is present and empty (ftp://anonymous:@host/) */
+                if (vh_coin(8)) { c->f[F_PASSWD] = strdup(""); vh_count("passwd_present_and_empty", 1); }
+                else c->f[F_PASSWD] = gen_from("abcdefghijklmnopqrstuvwxyzABCDEFGHIJKLMNOPQRSTUVWXYZ0123456789::", 1, small_len());
             }
         }
         /* host: letters, digits, '.', '-'; starts with a letter or digit */
